@@ -59,6 +59,8 @@ def main(spec_path, out_path):
 
     seed, k = o["seed"], o["num_chains"]
     outlier_prob = o["outlier_prob"]
+    if (o["assign_loss_prob"] or o["user_provided_loss_prob"]) and outlier_prob == 0:
+        outlier_prob = 0.0001  # as in run()
     rng_main = R.instantiate_and_seed_RNG(seed)
     data, samples = R.load_data(
         spec["in_file"], rng_main, o["low_loss_prob"], o["high_loss_prob"], o["assign_loss_prob"],
